@@ -49,7 +49,7 @@ def cases(draw):
         files = prog.files()
         kind = "generated"
         target_file = "main_mod.py"
-    muts = draw(st.lists(st.sampled_from(["crlf", "cr", "no_final_nl", "tabs", "comments", "blank_before", "none"]), min_size=0, max_size=3, unique=True))
+    muts = draw(st.lists(st.sampled_from(["crlf", "cr", "no_final_nl", "tabs", "comments", "blank_before", "header", "none"]), min_size=0, max_size=3, unique=True))
     picks = draw(st.lists(st.integers(0, 10 ** 6), min_size=16, max_size=16))
     return {"kind": kind, "files": files, "target": target_file, "muts": muts, "picks": picks, "apply": draw(st.booleans())}
 
@@ -73,6 +73,8 @@ def mutate_layout(text, muts, seed):
             out.append(l)
         lines = out
     text = "\n".join(lines)
+    if "header" in muts:
+        text = ["#!/usr/bin/env python3\n# -*- coding: utf-8 -*-\n\n", "\n\n# header comment\n", "   \n# note\n"][seed % 3] + text
     if "tabs" in muts:
         text = re.sub(r"(?m)^((?:    )+)", lambda m: "\t" * (len(m.group(1)) // 4), text)
     if "no_final_nl" in muts:
@@ -120,7 +122,7 @@ def run_case(ctx, case):
         ctx.discard("layout mutation broke the file")
         return
     project = jedi.Project(str(root))
-    picks = list(case["picks"]) * 3
+    picks = list(case["picks"]) * 6
     lines = corpus.split_lines(text)
     idents = [(m.start(), m.group(0)) for m in re.finditer(r"[^\W\d]\w{2,}", text) if not re.match(r"(print|import|from|def|class|return|self|None|True|False|lambda|for|pass|yield|with|not|and|else|elif|while|try|except|isinstance|len|list|next|super|functools|property|staticmethod|classmethod|wraps|note|about|the|line)$", m.group(0))]
     try:
@@ -149,6 +151,20 @@ def run_case(ctx, case):
             l, c, el, ec, info = exprs[picks.pop() % len(exprs)]
             ops.append(("extract_variable", (l, c), dict(new_name=NEW, until_line=el, until_column=ec), info["kind"]))
             ops.append(("extract_function", (l, c), dict(new_name=NEW, until_line=el, until_column=ec), info["kind"]))
+    # arbitrary in-range (pos, until) pairs: the exception contract holds for every selection
+    for _ in range(4):
+        l = 1 + picks.pop() % len(lines)
+        ln = lines[l - 1].rstrip("\r\n")
+        c = picks.pop() % (len(ln) + 1)
+        el = min(len(lines), l + picks.pop() % 3)
+        eln = lines[el - 1].rstrip("\r\n")
+        ec = picks.pop() % (len(eln) + 1)
+        if (el, ec) > (l, c):
+            for m in ("extract_variable", "extract_function"):
+                ops.append((m, (l, c), dict(new_name=NEW, until_line=el, until_column=ec), "arbitrary-range"))
+    for (l, c, el, ec) in [(1, 0, 1, min(2, len(lines[0].rstrip("\r\n")))), (1, 0, 2, 0)] if len(lines) > 2 else []:
+        for m in ("extract_variable", "extract_function"):
+            ops.append((m, (l, c), dict(new_name=NEW, until_line=el, until_column=ec), "arbitrary-range-at-file-start"))
     # out-of-range positions: ValueError and nothing else
     for m in ("rename", "inline", "extract_variable", "extract_function"):
         kw = dict(new_name=NEW) if m != "inline" else {}
@@ -228,7 +244,7 @@ def run_case(ctx, case):
                 if got != refac.normalise_final_newline(new_code):
                     devs.append(("diff-applied-differs-from-new-code:" + opname, where + " file %s" % rel(p)))
                 # preservation of text outside the rewritten nodes
-                for hk in (hunks[0]["hunks"] if hunks else []):
+                for hk in (hunks[0]["hunks"] if hunks and not what.startswith("arbitrary") else []):
                     minus = [h[1:] for h in hk[4] if h.startswith("-")]
                     plus = [h[1:] for h in hk[4] if h.startswith("+")]
                     for ml in minus:
